@@ -93,8 +93,9 @@ theorem lex_render_iso (cls : Char → CClass) (hcls : AsciiLike cls) (y m d h m
 /-- **parse inverts the ISO-like rendering** `YYYY-MM-DD[T ]HH:MM:SS`, for EVERY valid datetime (years 1..9999),
     any classification agreeing with ASCII on digits, `-`, `:`, `T` and space, the stock parserinfo with any
     `yearfirst` and any `_year`, non-fuzzy options without `dayfirst` (under `dayfirst` an ISO date is read
-    year-day-month by design), any default, any process zone names and any `tzinfos` that is not asked about a
-    missing name: the result is that datetime truncated to the second, naive. -/
+    year-day-month by design), any default, any process zone names (no offset is rendered here, so they play no
+    role) and any `tzinfos` that is not asked about a missing name: the result is that datetime truncated to the
+    second, naive. -/
 theorem parse_render_iso (cls : Char → CClass) (hcls : AsciiLike cls) (yf : Bool) (year century : Int) (o : Opts)
     (hfz : o.fuzzy = false) (hfwt : o.fuzzyWithTokens = false) (hdf : o.dayfirst.getD false = false)
     (tznames : List Token) (tzi : TzInfos) (htzi : tzi.applies none = false) (dflt : DT)
@@ -142,9 +143,51 @@ example : parse asciiCls (Info.default false false 2024 2000) {} [] .absent ⟨2
   Fields a rendering does not name come from the default (C15), so `expect` says exactly which fields are read
   from the text; with the oracle's midnight default this is `trunc`. -/
 
+/-! #### what the zone conclusion `offDescr tznames off` of every offset theorem says — and what it does NOT say
+
+  `offDescr` is `.naive` (nothing rendered), `.fixed none n` (`tzoffset(None, n)`, a non-zero offset `n` seconds), and for
+  a ZERO offset (`Z`, ` UTC`, `+00`, `+0000`, `+00:00`, `-00:00`): `tz.UTC` **unless** `"UTC" ∈ time.tzname`, in which
+  case it is `.localZone "UTC"` — `tz.tzlocal()`.  `.localZone` is a bare descriptor: it carries NO offset.  So when
+  the process zone is CALLED `UTC`, the theorems prove only "the result is in the process zone", NOT "aware with the
+  rendered offset (zero)".  A POSIX TZ string may call any zone `UTC` (`TZ=UTC+3`: `time.tzname = ('UTC','UTC')`,
+  offset −03:00), and then the implementation really returns −03:00 for `…Z` / `…+00:00` / `… UTC`: known finding
+  `D-C02-local-zone-named-utc` (a defect of /repo; witness in known_findings.d/C02.json and in the manifest).
+  `offDescr_carries_offset` is the clause that IS proved: the zone is `tz.UTC` / the fixed offset rendered whenever
+  the offset is non-zero or no process zone name is `UTC`; `offDescr_local_iff` says the `.localZone` row is exactly
+  the excluded class. -/
+
+/-- the proved part of "aware with the rendered offset": a non-zero offset gives `tzoffset(None, n)`; a zero offset
+    gives `tz.UTC` **provided no process zone name is `UTC`** -/
+theorem offDescr_carries_offset (tznames : List Token) (off : Off) (n : Int) (hn : off.seconds = some n)
+    (h : n = 0 → tznames.contains ['U', 'T', 'C'] = false) :
+    offDescr tznames off = if n = 0 then .utc else .fixed none n := by
+  unfold offDescr utcOrLocal
+  rw [hn]
+  by_cases h0 : n = 0
+  · have hc := h h0
+    simp only [List.contains_eq_mem, decide_eq_false_iff_not] at hc
+    simp [h0, hc]
+  · simp [h0]
+
+/-- the `.localZone` row (no offset information) is exactly: zero offset rendered ∧ the process zone is called `UTC` -/
+theorem offDescr_local_iff (tznames : List Token) (off : Off) (name : Token) :
+    offDescr tznames off = .localZone name ↔
+      off.seconds = some 0 ∧ tznames.contains ['U', 'T', 'C'] = true ∧ name = ['U', 'T', 'C'] := by
+  unfold offDescr utcOrLocal
+  cases hs : off.seconds with
+  | none => simp
+  | some n =>
+    by_cases h0 : n = 0
+    · by_cases hc : ['U', 'T', 'C'] ∈ tznames
+      · simp [h0, hc, eq_comm]
+      · simp [h0, hc]
+    · simp [h0]
+
 /-- **families 1 and 2**: `YYYY-MM-DD[T| ]HH:MM[:SS[(.|,)f{1..6}]]` followed by nothing, `Z`, ` Z`, ` UTC`, `±HH`,
     `±HHMM`, `±HH:MM` (optionally after a space), offsets −23:59..+23:59: that datetime, cut to the digits shown,
-    naive / `tz.UTC` (the local zone if it is itself called UTC) / the fixed offset. -/
+    naive / the fixed offset / for a zero offset `tz.UTC` — or, when the process zone is itself called `UTC`, the
+    process zone `tzlocal()`, whose offset is whatever that zone's is (NOT necessarily zero: D-C02-local-zone-named-utc;
+    see `offDescr_carries_offset` for the clause that is proved). -/
 theorem parse_render_iso_offsets (cls : Char → CClass) [AsciiOK cls] (yf : Bool) (year century : Int) (o : Opts)
     (tznames : List Token) (tzi : TzInfos) (ho : PlainOpts o tzi) (dflt : DT) (hdv : dflt.Valid) (t : DT) (ht : t.Valid)
     (sep : Char) (hsep : sep = 'T' ∨ sep = ' ') (f : TimeFmt) (hf : timeFmtDom f) (off : Off) (hoff : off.Dom) :
@@ -244,14 +287,20 @@ example : parse asciiCls (Info.default false false 2024 2000) {} [] .absent ⟨2
     .ok ⟨⟨2003, 9, 25, 10, 49, 41, 502000⟩, .fixed none (-12600), none⟩ := by decide +kernel
 
 /-
-  parse_render_partial — what is left (numeric dates with `-` or `.` separators or followed by a time, `DD-Mon-YY`, `YYMMDD`; the
-  `Month D, YYYY h:mm:ss AM` long form, `hAM` without minutes, `HHhMMm`, `HHMMSS.ffffff` after a compact date) has no
-  symbolic theorem: for them the round trip rests on the per-run oracle sweep of the implementation and on the
-  correspondence of the executable model (the same `PM.parse`) with the implementation on those renderings.
+  parse_render_partial — what is left is exactly the ids of the oracle's template table that are not in `PT.provedTemplates`
+  (printed each run as histograms.partial_templates; at the time of writing: dotted dates `DD.MM.YYYY` / `YYYY.MM.DD`, the
+  `Month D, YYYY h:mm:ss AM` long form, `HHMMSS.ffffff` after a compact date, offsets after ctime): no symbolic theorem; for
+  them the round trip rests on the per-run oracle sweep of the implementation and on the correspondence of the executable
+  model (the same `PM.parse`) with the implementation on those renderings.
   D-C02: for the month-name templates the full-strength statement is false for years < 100; the model shows it:
 -/
 example : parse asciiCls (Info.default false false 2024 2000) {} [] .absent ⟨2001, 1, 1, 0, 0, 0, 0⟩
     "Wed May 28 23:52:59 0031".toList = .ok ⟨⟨2031, 5, 28, 23, 52, 59, 0⟩, .naive, none⟩ := by decide +kernel
+
+/-- D-C02-local-zone-named-utc, shown by the model: with `time.tzname = ("UTC", "UTC")` (e.g. `TZ=UTC+3`) a rendered `+00:00`
+    comes back in the PROCESS zone (`.localZone`), not as `tz.UTC` — and that zone is 3 hours away from UTC -/
+example : parse asciiCls (Info.default false false 2024 2000) {} ["UTC".toList, "UTC".toList] .absent ⟨2001, 1, 1, 0, 0, 0, 0⟩
+    "2003-09-25T10:49:41+00:00".toList = .ok ⟨⟨2003, 9, 25, 10, 49, 41, 0⟩, .localZone "UTC".toList, none⟩ := by decide +kernel
 
 -- BEGIN GENERATED INDEX (tools_local/gen_templates.py)
 /-- the theorem a template id stands for (`False` for an id without one) -/
